@@ -16,6 +16,7 @@ import (
 	"strings"
 
 	"github.com/M2MGateway/go-smpp/coding"
+	"github.com/M2MGateway/go-smpp/coding/gsm7bit"
 	"github.com/M2MGateway/go-smpp/pdu"
 )
 
@@ -82,7 +83,11 @@ func runAccessors(p interface{}) accResult {
 	if r, ok := p.(pdu.Responsable); ok {
 		try("Resp", true, func() {
 			resp := r.Resp()
-			rid := typeIDcache[reflect.TypeOf(resp).Elem()]
+			rt := reflect.TypeOf(resp)
+			if rt != nil && rt.Kind() == reflect.Ptr { // a response handed out by value is as good as a pointer to it
+				rt = rt.Elem()
+			}
+			rid := typeIDcache[rt]
 			respTerm = fmt.Sprintf("(Some (%d, %s))", rid, coqZ(int64(pdu.ReadSequence(resp))))
 			_ = fmt.Sprintf("%v %+v", resp, resp)
 		})
@@ -92,6 +97,9 @@ func runAccessors(p interface{}) accResult {
 		f := v.Field(i)
 		fname := tname + "." + v.Type().Field(i).Name
 		fields[i] = "FoNone"
+		if v.Type().Field(i).PkgPath != "" {
+			continue // an unexported (bookkeeping) field is not something the library offers on the PDU
+		}
 		// text form of the field: fmt verbs and a direct call of String()
 		try("fmt "+fname, false, func() {
 			if s := fmt.Sprintf("%v|%+v", f.Interface(), f.Interface()); strings.Contains(s, "PANIC=") {
@@ -148,8 +156,13 @@ func runAccessors(p interface{}) accResult {
 				_, _ = x.DataCoding.MessageClass()
 				_ = x.DataCoding.Splitter()
 				_ = x.UDHeader.Len()
+				_, _ = x.DataCoding.Validate(""), x.DataCoding.Validate("a\u20ac")
 			})
-			fields[i] = fmt.Sprintf("FoShort %s %s", coqConcat(h), parsed)
+			if concatOpen(x.UDHeader) {
+				fields[i] = fmt.Sprintf("FoShortOpen %s", parsed)
+			} else {
+				fields[i] = fmt.Sprintf("FoShort %s %s", coqConcat(h), parsed)
+			}
 		default:
 			if f.Kind() == reflect.Uint8 {
 				b := byte(f.Uint())
@@ -169,6 +182,14 @@ func runAccessors(p interface{}) accResult {
 			coqZ(int64(seq)), uint32(status), respTerm, coqList(fields))
 	}
 	return res
+}
+
+// concatOpen: the UDH holds both concatenation elements, or one longer than its format: which header
+// is read from it (the first? the 16-bit one? none?) is left open by C10/C11; only "returns" is compared.
+func concatOpen(u map[byte][]byte) bool {
+	d0, has0 := u[0]
+	d8, has8 := u[8]
+	return (has0 && has8) || len(d0) > 3 || len(d8) > 4
 }
 
 // accClass turns "Address.String SubmitSM.SourceAddr: runtime error…" into the
@@ -288,6 +309,10 @@ func c11History(r *Run, ps []*pdu.DeliverSM, bucket string) {
 		r.Case("combine "+input, fmt.Sprintf("chk_combine %s %s Panic", coqSegTable(table), coqNatList(hist)))
 		return
 	}
+	if _, _, _, _, info := judgeFull(table, hist, obs); info.lenient {
+		lenientCase(r, table, hist, obs, info) // what is done with malformed segments is left open: returns normally + the well-formed keys
+		return
+	}
 	r.Case("combine "+input, fmt.Sprintf("chk_combine_proj %s %s %s (Ok %s)", coqSegTable(table), coqNatList(hist), coqNatList(projOf(table, hist)), coqTrace(projOf(table, hist), obs.Trace)))
 }
 
@@ -357,6 +382,11 @@ func replayC11(arg string) string {
 	return "unrecognised replay input"
 }
 
+func isGSM7(c coding.DataCoding) bool {
+	e := c.Encoding()
+	return e != nil && reflect.TypeOf(e) == reflect.TypeOf(gsm7bit.Packed)
+}
+
 func udhInput(u map[byte][]byte) string {
 	var parts []string
 	for _, k := range []int{0, 8, 1, 5, 0x24} {
@@ -370,6 +400,7 @@ func udhInput(u map[byte][]byte) string {
 // ---------------------------------------------------------------- the run
 func corrC11(r *Run) {
 	r.Import("Model.AccessorsRun")
+	r.Import("Model.CombinerRun")
 	r.PerShard(150)
 	r.Rule = "every read-only operation (fmt %v/%+v and String() of the PDU and of each field, Resp, ReadSequence, ReadCommandStatus, Parse, " +
 		"ConcatenatedHeader, the multipart combiner) under recover() on: every PDU a malformed-frame stream yields (valid header of each of the 33 " +
@@ -385,15 +416,19 @@ func corrC11(r *Run) {
 		r.Count(fmt.Sprintf("message_state/%d", b), true, "message_state octet")
 		if panicked {
 			r.Fail(fmt.Sprintf("message_state-panic/octet=%d", b), "MessageState.String panicked", fmt.Sprintf("message_state %d", b), msg, "returns a text")
-			r.Case(fmt.Sprintf("message_state_string %d", b), fmt.Sprintf("beq_obytes (message_state_string %d) Panic", b))
+			r.Case(fmt.Sprintf("message_state_string %d", b), fmt.Sprintf("ocls (message_state_string %d) =? 2", b))
 			continue
 		}
-		r.Case(fmt.Sprintf("message_state_string %d", b), fmt.Sprintf("beq_obytes (message_state_string %d) (Ok %s)", b, coqHex([]byte(s))))
+		_ = s // the text is not compared: C11 demands that String() returns, not what it prints
+		r.Case(fmt.Sprintf("message_state_string %d", b), fmt.Sprintf("ocls (message_state_string %d) =? 0", b))
 	}
 	r.Sample(map[string]interface{}{"accessor": "MessageState.String", "octet": 10, "note": "the first value without a name: printed as a number"})
 
 	// ---- 1'. command_status over its whole range, and the oversized-UDH frame class (c11_status.go)
 	c11Status(r, ts)
+
+	// ---- 1''. ReadSequence / ReadCommandStatus go through reflect: what the argument looks like decides whether they return
+	c11Shapes(r, ts)
 
 	// ---- 2. data_coding: every octet x hostile messages through Parse
 	msgs := [][]byte{{}, {0x41}, {0x1B}, {0x41, 0x1B}, {0xD8, 0x00}, {0xD8, 0x00, 0x41}, {0xFF, 0xFE, 0xFD}, {0x80, 0x81, 0x8F, 0xA0},
@@ -418,9 +453,13 @@ func corrC11(r *Run) {
 				r.Fail(fmt.Sprintf("parse-panic/data_coding=%d", dc), "ShortMessage.Parse panicked", in, pm, "returns a text or an error")
 				continue
 			}
+			_ = text
 			if !hasDec && (mi < 6 || dc%16 == 3) {
-				r.Case(in, fmt.Sprintf("beq_obytes (parse (fun _ => None) {| sm_dflt := 0; sm_dc := %d; sm_udh := None; sm_msg := %s |}) (Ok %s)",
-					dc, coqHex(msg), coqHex([]byte(text))))
+				r.Case(in, fmt.Sprintf("ocls (parse (fun _ => None) {| sm_dflt := 0; sm_dc := %d; sm_udh := None; sm_msg := %s |}) =? 0", dc, coqHex(msg)))
+			}
+			if isGSM7(coding.DataCoding(dc)) && (dc == 0 || mi%4 == dc%4) {
+				// the decoder model of C08 plugged into Parse (C11_parse_gsm7): returns iff the code returns
+				r.Case(in, fmt.Sprintf("chk_parse_gsm7 %d %s %d", dc, coqHex(msg), map[bool]int{false: 0, true: 1}[err != nil]))
 			}
 			if !hasDec && err != nil {
 				r.Fail(fmt.Sprintf("parse-error-without-decoder/data_coding=%d", dc), "Parse returned an error although it has no decoder to fail", in, err.Error(), "the hex text")
@@ -467,13 +506,17 @@ func corrC11(r *Run) {
 			r.Case(udhInput(u), fmt.Sprintf("beq_oconcat (concatenated_header %s) Panic", term))
 			continue
 		}
+		if concatOpen(u) {
+			r.Case(udhInput(u), fmt.Sprintf("ocls (concatenated_header %s) =? 0", term)) // which element is read is left open
+			continue
+		}
 		r.Case(udhInput(u), fmt.Sprintf("beq_oconcat (concatenated_header %s) (Ok %s)", term, coqConcat(h)))
 	}
 	r.Sample(map[string]interface{}{"accessor": "ConcatenatedHeader", "udh": "IEI 0 with 2 octets", "returned": "nil (not a concatenation header)"})
 
 	// ---- 4. all 65,536 (total, sequence) pairs: on an empty combiner, and after segments already stored under the key
 	a := pdu.Address{TON: 1, NPI: 1, No: "1"}
-	for _, prime := range [][][2]int{{}, {{2, 1}}, {{3, 2}}, {{255, 255}}, {{1, 0}, {0, 0}, {4, 4}}} {
+	for pi, prime := range [][][2]int{{}, {{2, 1}}, {{3, 2}}, {{255, 255}}, {{1, 0}, {0, 0}, {4, 4}}} {
 		var exc []string
 		nPanic := 0
 		for t := 0; t < 256; t++ {
@@ -501,15 +544,22 @@ func corrC11(r *Run) {
 			}
 		}
 		prs := make([]string, len(prime))
+		inprog := 0 // the total of the message the prime leaves in progress (its last well-numbered segment)
 		for i, pr := range prime {
 			prs[i] = fmt.Sprintf("(%d, %d)", pr[0], pr[1])
+			if pr[1] >= 1 && pr[1] <= pr[0] && pr[0] > 1 {
+				inprog = pr[0]
+			}
+		}
+		if r.Quick && pi != 0 && pi != 1+int(r.Seed)%4 && nPanic == 0 {
+			continue // quick tier: the empty prime and one of the four others (rotating with the seed) are model cases; all five are run on the code
 		}
 		r.Case(fmt.Sprintf("all 65536 (total,sequence) pairs after %v: %d deliver, %d panic", prime, len(exc)-nPanic, nPanic),
-			fmt.Sprintf("chk_pairs %s %s", coqList(prs), coqList(exc)))
+			fmt.Sprintf("chk_pairs %s %d %s", coqList(prs), inprog, coqList(exc)))
 	}
 
 	// ---- 5. histories mixing totals under one key
-	n := r.N(400, 6000)
+	n := r.N(300, 6000)
 	for i := 0; i < n; i++ {
 		var table []segVal
 		k := 1 + r.Rng.Intn(2)
@@ -535,6 +585,9 @@ func corrC11(r *Run) {
 			r.Fail("combiner-panic/mixed-totals", "the combiner panicked on a history mixing totals under one key", histInput(table, hist), obs.PanicMsg, "segments are stored or ignored")
 		}
 	}
+
+	// ---- 5'. long runs of ignored segments on one combiner (c11_hist.go)
+	c11Ignored(r)
 
 	// ---- 6. the malformed-frame stream
 	var delivered []*pdu.DeliverSM
@@ -615,7 +668,7 @@ func corrC11(r *Run) {
 	}
 	flush("combiner on decoded deliver_sm (address edge values)")
 	// 6b. every registered id: arbitrary body octets behind a valid header
-	perType := r.N(60, 700)
+	perType := r.N(48, 700)
 	for _, t := range ts {
 		for i := 0; i < perType; i++ {
 			var body []byte
@@ -688,6 +741,9 @@ func corrC11(r *Run) {
 	flush("combiner on decoded deliver_sm (UDH stream)")
 	r.Sample(map[string]interface{}{"stream": "valid 16-octet header of each registered command_id + arbitrary body; every PDU ReadPDU yields goes through all accessors",
 		"types": len(ts)})
+	spreadHeavy(r, func(e string) bool {
+		return strings.HasPrefix(e, "chk_pairs ") || (strings.HasPrefix(e, "chk_ignored ") && strings.Contains(e, "000%nat"))
+	})
 }
 
 func seqInts(lo, hi int) []int {
